@@ -394,11 +394,21 @@ H_UN(bintNegate, i, 1) H_UN(bintNegate, s, 0)
 H_UN(bintAbs, i, 1)    H_UN(bintAbs, s, 0)
 H_UN(bintCopy, i, 1)   H_UN(bintCopy, s, 0)
 
-/* ============================== sum and difference (modular) ========================================
- * enforce c_bintPlus on the real body with the recursive call and bintMinus replaced by their contracts
- * (and symmetrically); operands in operand form (BS_WF_OP), which includes every canonical number */
-#define H_ADD(fn, sfx, KA, KB) \
-void h_##fn##_##sfx(void) \
+/* ============================== sum and difference ===================================================
+ * The real bodies, everything inlined.  bintPlus and bintMinus call themselves and each other after
+ * flipping signs; symbolic execution cannot see which of those calls are feasible, so each job fixes one SIGN
+ * CASE (a constant SG per entry point) and bounds the re-entries with --unwindset bintPlus:N,bintMinus:M; the
+ * recursion unwinding assertions then PROVE that no deeper call is reachable in that case.  The union of the
+ * four sign cases is the whole domain.  (The modular route - each body against its contract with the inner
+ * calls replaced, --enforce-contract-rec - was built and abandoned: goto-instrument's write-set instrumentation
+ * plus the tagged-pointer dereferences made symbolic execution alone take > 150 s and the solver run out of
+ * memory.)  Operands are in operand form (BS_WF_OP), which includes every canonical number.
+ *   SG 0: a >= 0, b >= 0    SG 1: a < 0, b >= 0    SG 2: a >= 0, b < 0    SG 3: a < 0, b < 0 */
+#define SIGN_CASE(SG, va, vb) \
+	((SG) == 0 ? ((va) >= 0 && (vb) >= 0) : (SG) == 1 ? ((va) < 0 && (vb) >= 0) : \
+	 (SG) == 2 ? ((va) >= 0 && (vb) < 0) : ((va) < 0 && (vb) < 0))
+#define H_ADD(fn, sfx, KA, KB, SG) \
+void h_##fn##_##sfx##_sg##SG(void) \
 { \
 	INPUT(BIntS, sent); g_sent = sent; \
 	IN_BINT_K(a, KA); IN_BINT_K(b0, KB); INPUT(int, same); \
@@ -406,15 +416,16 @@ void h_##fn##_##sfx(void) \
 	ASSUME(BS_IS_IMM(a) || a->placec <= a->placea); ASSUME(BS_IS_IMM(b) || b->placec <= b->placea); \
 	ASSUME(PRE_bint2(a, b)); \
 	bs_v va = BS_V(a), vb = BS_V(b); \
+	ASSUME(SIGN_CASE(SG, va, vb)); \
 	BInt r = fn(a, b); \
-	CONTRACT_POST("c_" #fn ".postcondition", POST_##fn(va, vb, r)); \
+	CHECK(#fn ": exact and canonical", POST_##fn(va, vb, r)); \
 	CHECK(#fn ": operands unchanged", BS_V(a) == va && BS_V(b) == vb); \
 	CHECK(#fn ": no digit stored beyond the capacity", SLACK_OK(r) && SLACK_OK(a) && SLACK_OK(b)); \
 	VREACH(); \
 }
-#define H_ADD4(fn) H_ADD(fn, ii, 1, 1) H_ADD(fn, is, 1, 0) H_ADD(fn, si, 0, 1) H_ADD(fn, ss, 0, 0)
-H_ADD4(bintPlus)
-H_ADD4(bintMinus)
+#define H_ADD4(fn, SG) H_ADD(fn, ii, 1, 1, SG) H_ADD(fn, is, 1, 0, SG) H_ADD(fn, si, 0, 1, SG) H_ADD(fn, ss, 0, 0, SG)
+H_ADD4(bintPlus, 0)  H_ADD4(bintPlus, 1)  H_ADD4(bintPlus, 2)  H_ADD4(bintPlus, 3)
+H_ADD4(bintMinus, 0) H_ADD4(bintMinus, 1) H_ADD4(bintMinus, 2) H_ADD4(bintMinus, 3)
 
 /* ============================== products with an exact cheap formulation ============================ */
 /* product of two half-range immediates (|x|,|y| < 2^31).  Modular: bintNew is replaced by its contract
